@@ -201,6 +201,11 @@ Definition py_in (x c : pyval) : res pyval := lift_bool (py_inb x c).
 Definition py_not_in (x c : pyval) : res pyval := e <- py_inb x c ;; Ok (PBool (negb e)).
 Definition py_not (v : pyval) : res pyval := t <- py_truth v ;; Ok (PBool (negb t)).
 
+Definition py_is_none (v : pyval) : res pyval :=
+  match v with PNone => Ok (PBool true) | POther _ => Err EUnmodelled | _ => Ok (PBool false) end.
+Definition py_is_not_none (v : pyval) : res pyval :=
+  match v with PNone => Ok (PBool false) | POther _ => Err EUnmodelled | _ => Ok (PBool true) end.
+
 (* `a and b`, `a or b`: the value of the operand that decides *)
 Definition py_and (va : pyval) (b : res pyval) : res pyval := t <- py_truth va ;; if t then b else Ok va.
 Definition py_or (va : pyval) (b : res pyval) : res pyval := t <- py_truth va ;; if t then Ok va else b.
@@ -219,7 +224,11 @@ Definition py_lt := int_op2 (fun x y => Ok (PBool (Z.ltb x y))).
 Definition py_le := int_op2 (fun x y => Ok (PBool (Z.leb x y))).
 Definition py_gt := int_op2 (fun x y => Ok (PBool (Z.ltb y x))).
 Definition py_ge := int_op2 (fun x y => Ok (PBool (Z.leb y x))).
-Definition py_add := int_op2 (fun x y => Ok (PInt (x + y))).
+Definition py_add (a b : pyval) : res pyval :=
+  match a, b with
+  | PStr x, PStr y => Ok (PStr (x ++ y))                       (* str + str *)
+  | _, _ => int_op2 (fun x y => Ok (PInt (x + y))) a b
+  end.
 Definition py_sub := int_op2 (fun x y => Ok (PInt (x - y))).
 Definition py_mod := int_op2 (fun x y => if Z.eqb y 0 then Err EUnmodelled else Ok (PInt (x mod y))).
 
@@ -351,6 +360,19 @@ Definition py_find3 (v c lo hi : pyval) : res pyval :=
   | PStr _, _, _, _ => Err EUnmodelled
   | POther _, _, _, _ => Err EUnmodelled
   | _, _, _, _ => Err EAttr
+  end.
+(* s.replace(a, b) for a one-character a *)
+Fixpoint replace_char (c : ascii) (b s : string) : string :=
+  match s with
+  | EmptyString => EmptyString
+  | String x r => if Ascii.eqb x c then b ++ replace_char c b r else String x (replace_char c b r)
+  end.
+Definition py_replace (v a b : pyval) : res pyval :=
+  match v, one_char a, b with
+  | PStr s, Some c, PStr t => Ok (PStr (replace_char c t s))
+  | PStr _, _, _ => Err EUnmodelled
+  | POther _, _, _ => Err EUnmodelled
+  | _, _, _ => Err EAttr
   end.
 (* s.split(sep) for a one-character separator *)
 Definition py_split (v sep : pyval) : res pyval :=
